@@ -22,7 +22,7 @@ class Topology:
     """front proxy P1 (listeners: proto x upstream, routed by listener name) -> P2 (http + socks listeners, direct) -> origin"""
 
     def __init__(self, wd, name, splice=True, buffer=65536, idle=600, udp=600, history=100, log="warn", reverse_target=None,
-                 extra_rules_first=None, special=False, p2_deny_port=0, access_log=None):
+                 extra_rules_first=None, special=False, p2_deny_port=0, access_log=None, fake=None):
         self.wd = wd
         self.name = name
         self.ports = {}
@@ -45,6 +45,12 @@ class Topology:
                     ls.append({"name": lname, "type": "reverse", "bind": "127.0.0.1:%d" % port, "target": reverse_target})
                 else:
                     ls.append({"name": lname, "type": "http" if proto == "http" else "socks", "bind": "127.0.0.1:%d" % port})
+        self.fake = fake or {}
+        for up in self.fake:          # scripted upstream proxies run by the driver (bb.FakeUpstream): name -> (connector type, port)
+            for proto in ("http", "socks5", "socks4"):
+                port = bb.free_port()
+                self.ports[(proto, up)] = port
+                ls.append({"name": "%s_%s" % (proto, up), "type": "http" if proto == "http" else "socks", "bind": "127.0.0.1:%d" % port})
         self.special = {}
         if special:
             # listeners whose requests are denied, match no rule, go to a TCP-only load balancer, or need credentials
@@ -65,6 +71,9 @@ class Topology:
                  {"name": "upquic", "type": "quic", "server": "localhost", "port": self.p2_quic, "bind": "127.0.0.1:0", "tls": {"ca": FX + "/ca.crt"}},
                  {"name": "uptls", "type": "http", "server": "localhost", "port": self.p2_https, "tls": {"ca": FX + "/ca.crt"}}]
         rules = list(extra_rules_first or [])
+        for up, (typ, port) in self.fake.items():
+            conns.append({"name": up, "type": typ, "server": "127.0.0.1", "port": port})
+            rules.append({"filter": 'request.listener =~ "_%s$"' % up, "target": up})
         if special:
             conns.append({"name": "lb", "type": "loadbalance", "connectors": ["direct"]})
             rules.append({"filter": 'request.listener =~ "_deny$"', "target": "deny"})
@@ -223,9 +232,10 @@ def run_script(topo, proto, up, origin, script, tag, step_wait=0.6):
     return res
 
 
-def bulk_tunnel(topo, proto, up, origin, tag, up_bytes, down_bytes, pause_reader=0.0, chunk=65536):
+def bulk_tunnel(topo, proto, up, origin, tag, up_bytes, down_bytes, pause_reader=0.0, chunk=65536, slow_reader=None):
     """one tunnel moving up_bytes client->origin and down_bytes origin->client concurrently; the receiving sides start
-    reading only after `pause_reader` seconds (back-pressure through the proxy). Returns the observation record."""
+    reading only after `pause_reader` seconds (back-pressure through the proxy); with slow_reader=(bytes, seconds) they
+    stay slow until the very end, so the proxy still holds data when the sender's FIN arrives. Returns the observation record."""
     import hashlib
     T = ("ipv4", "127.0.0.1", origin.port)
     c, rep = topo.open(proto, up, T)
@@ -239,7 +249,12 @@ def bulk_tunnel(topo, proto, up, origin, tag, up_bytes, down_bytes, pause_reader
         c.close()
         return rec
     for e in (c, o):
-        e.s.settimeout(30.0)
+        e.s.settimeout(60.0 if slow_reader else 30.0)
+        if slow_reader:
+            try:
+                e.s.setsockopt(socket.SOL_SOCKET, socket.SO_RCVBUF, slow_reader[2] if len(slow_reader) > 2 else 16384)
+            except OSError:
+                pass
     result = {}
 
     def pump(sock_conn, stream, n):
@@ -263,7 +278,9 @@ def bulk_tunnel(topo, proto, up, origin, tag, up_bytes, down_bytes, pause_reader
         eof = False
         try:
             while True:
-                d = sock_conn.s.recv(262144)
+                if slow_reader:
+                    time.sleep(slow_reader[1])
+                d = sock_conn.s.recv(slow_reader[0] if slow_reader else 262144)
                 if not d:
                     eof = True
                     break
@@ -289,6 +306,45 @@ def bulk_tunnel(topo, proto, up, origin, tag, up_bytes, down_bytes, pause_reader
                 "first_bad_offset": {"c2s": result.get(sc + ":bad_at"), "s2c": result.get(so + ":bad_at")},
                 "eof": {"c2s": bool(result.get(sc + ":eof")), "s2c": bool(result.get(so + ":eof"))},
                 "errors": {k: v for k, v in result.items() if k.endswith("err")}})
+    c.close()
+    o.close()
+    return rec
+
+
+def early_reply_tunnel(topo, proto, up, fake, tag, n_up=5000, n_down=7000):
+    """a tunnel through a scripted upstream proxy (bb.FakeUpstream) whose success reply arrives in pieces and / or with
+    payload glued behind it; both directions carry tagged payload, both sides end with FIN. Observation record as bulk_tunnel."""
+    T = ("ipv4", "127.0.0.1", fake.port)
+    c, rep = topo.open(proto, up, T)
+    rec = {"tag": tag, "proto": proto, "up": up, "sport": c.s.getsockname()[1], "established": bb.established(rep)}
+    if not rec["established"]:
+        c.close()
+        return rec
+    o = fake.accept(5.0)
+    if o is None:
+        rec["established"] = False
+        c.close()
+        return rec
+    glue = o.glue
+    sc, so = bb.payload(tag + ":c2s", n_up), bb.payload(tag + ":s2c", n_down)
+    c.send(sc)
+    o.send(so)
+    c.fin()
+    o.fin()
+    o.recv_until_eof(5.0)
+    c.recv_until_eof(5.0)
+    want_c = glue + so
+    got_c, got_o = bytes(c.rx), bytes(o.rx)
+
+    def first_bad(got, want):
+        for i in range(min(len(got), len(want))):
+            if got[i] != want[i]:
+                return i
+        return None if len(got) <= len(want) else len(want)
+    rec.update({"sent": {"c2s": len(sc), "s2c": len(want_c)}, "recv": {"c2s": len(got_o), "s2c": len(got_c)},
+                "intact": {"c2s": first_bad(got_o, sc) is None, "s2c": first_bad(got_c, want_c) is None},
+                "first_bad_offset": {"c2s": first_bad(got_o, sc), "s2c": first_bad(got_c, want_c)},
+                "eof": {"c2s": bool(o.eof), "s2c": bool(c.eof)}, "errors": {}, "policy": {"glue": len(glue), "split": bool(o.policy.get("split"))}})
     c.close()
     o.close()
     return rec
